@@ -13,6 +13,14 @@ open Spp
 theorem isTrueWord_pyBool (b : Bool) : isTrueWord (pyBool b) = b := by
   cases b <;> decide +kernel
 
+/-- Text that is written and parsed again: the empty string comes back as "no text", which the loader of a
+    `<Value>` reads as the empty literal. -/
+theorem textOf_getD (v : String) : (textOf v).getD "" = v := by
+  unfold textOf
+  by_cases h : v.isEmpty = true
+  · simp [h, String.isEmpty_iff.mp h]
+  · simp [h]
+
 /-- A Comparison written to XML and read back is the same Comparison (operator spelling, literal, selector). -/
 theorem comparison_roundtrip (u : Option String) (c : Comparison) (hop : (lookupOp c.op).isSome = true) :
     loadComparison (writeComparison u c) = .ok c := by
@@ -46,7 +54,7 @@ theorem condition_roundtrip (u : Option String) (c : Condition) (hop : (lookupOp
       subst h1 h2 h3
       simp [loadCondition, condFromParts, writeCondition, mkEl, findFirst, findAll, Step.matches, step, XmlNode.isElem, XmlNode.tag,
         XmlNode.ns, XmlNode.kids, XmlNode.text, XmlNode.attr?, XmlNode.attr!, XmlNode.attrs, loadParamInstanceRef, boolAttr,
-        isTrueWord_pyBool, hop', bind, Except.bind, pure, Except.pure]
+        isTrueWord_pyBool, hop', textOf_getD, bind, Except.bind, pure, Except.pure]
 
 /-- Printing and re-reading numbers: CPython's `str`/`int`/`float` round trip (trusted, stated as hypotheses). -/
 def IntRoundTrip : Prop := ∀ i : Int, readInt (showInt i) = .ok i
